@@ -336,8 +336,14 @@ class SystemLoss:
     """abstract SystemLossODE / SystemLossPDE built through the repository's constructor"""
 
     def __init__(self, E, eq_type, net_kind='PINN', unknowns=('a', 'b'), equations=('e1', 'e2'), d=2, terms=('dyn', 'ic'),
-                 weights='scalar', eq_keys=('nu',), m_res=None, derivative_keys_dict=None):
+                 weights='scalar', eq_keys=('nu',), m_res=None, derivative_keys_dict=None, reverse_dicts=False):
         self.E, self.eq_type, self.net_kind, self.d = E, eq_type, net_kind, d
+        rset = set(reverse_dicts) if isinstance(reverse_dicts, (set, tuple, list, frozenset)) else \
+            ({'u', 'dyn', 'weights', 'specs'} if reverse_dicts else set())
+
+        def rv(d, label='weights'):
+            return dict(reversed(list(d.items()))) if label in rset else d
+        self._rv = rv
         self.unknowns, self.equations, self.terms = tuple(unknowns), tuple(equations), set(terms)
         d_net = 0 if eq_type == 'ODE' else d
         self.u_dict = {k: Net(k, net_kind, 1, eq_type, d_net) for k in unknowns}
@@ -360,9 +366,9 @@ class SystemLoss:
             if kind == 'scalar':
                 v = sc('w_' + n)
                 self.wspec[n] = ({k: v.data[()] for k in keys}, v)
-            elif kind == 'dict':
-                dct = {k: sc(f'w_{n}_{k}') for k in keys}
-                self.wspec[n] = ({k: x.data[()] for k, x in dct.items()}, dct)
+            elif kind in ('dict', 'dict_rev'):
+                dct = {k: sc(f'w_{n}_{k}') for k in (keys if kind == 'dict' else tuple(reversed(keys)))}
+                self.wspec[n] = ({k: x.data[()] for k, x in dct.items()}, rv(dct))
             elif kind == 'none':
                 self.wspec[n] = ({k: Poly.const(0) for k in keys}, None)
             elif kind == 'float':
@@ -395,7 +401,9 @@ class SystemLoss:
                 kw['initial_condition_fun_dict'] = f('initial_condition_fun')
         if derivative_keys_dict is not None:
             kw['derivative_keys_dict'] = derivative_keys_dict
-        self.loss = cls(u_dict=self.u_dict, dynamic_loss_dict=self.dyn, loss_weights=lw, params_dict=self.params, **kw)
+        kw = {k: (rv(v, 'specs') if isinstance(v, dict) else v) for k, v in kw.items()}
+        self.loss = cls(u_dict=rv(self.u_dict, 'u'), dynamic_loss_dict=rv(self.dyn, 'dyn'), loss_weights=lw,
+                        params_dict=self.params, **kw)
 
     def batch(self, param_keys=()):
         E = self.E
